@@ -323,6 +323,8 @@ var c19MetaBodies = []string{
 	"<div>\n  <p>{{ a < b }}</p>\n</div>\n",
 	"<p>only</p>",
 	"",
+	// a custom element (no HTML atom) between an inline-only container and a <pre>: the pre's white space is content
+	"<table><tbody><tr><td><code-block><pre>a\n  b\t c</pre></code-block></td></tr></tbody></table><span><x-box><pre>  k\n\n l </pre></x-box></span><dl><dd><user-badge>u</user-badge><code-block><pre>m\n n</pre></code-block></dd></dl>",
 	"<tr\r\n  v-for=\"r in rows\"><td>{{ r.name }}</td></tr>\r\n",
 }
 
